@@ -6,6 +6,8 @@
 //! and once in each of two further PROCESSES (this binary re-executes itself: fresh hash seeds, fresh
 //! timer counter).  Every replay yields, per step, the bincode serialisation of the effect requests
 //! (timer ids renumbered by first occurrence) and of the view; the five byte strings must be identical.
+//! Each child process also runs the history through the real `Bridge` and prints the RAW bytes it returns
+//! (effect ids, timer ids, view); those must be identical between the two processes as they are.
 //! The first replay's effects are also printed typed, with raw timer ids, for comparison with the model
 //! (coq/HttpReq/Replay.v).
 //! (2) Equality.  `==` is evaluated both ways on pairs of `crux_http::Response` built from descriptions
@@ -58,8 +60,10 @@ pub enum AOp {
 pub enum Step { Event { ops: Vec<AOp> }, Resolve { k: u64, seed: u64 }, View }
 
 // ------------------------------------------------------------------ the app
+#[derive(Serialize, Deserialize)]
 pub enum Event {
-    Go(Vec<AOp>),
+    /// the operations as JSON text (the description types use serde features bincode cannot read back)
+    Go(String),
     Http(crux_http::Result<crux_http::Response<Vec<u8>>>),
     Kv(String),
     TimeCap(TimeResponse),
@@ -68,11 +72,13 @@ pub enum Event {
 #[derive(Default)]
 pub struct App;
 #[derive(Default)]
-pub struct Model { log: Vec<String>, timers: Vec<TimerId> }
+pub struct Model { log: Vec<String>, timers: Vec<TimerId>, last: Option<crux_http::Response<Vec<u8>>> }
 #[derive(Effect)]
 pub struct Capabilities { http: crux_http::Http<Event>, kv: KeyValue<Event>, render: Render<Event>, time: Time<Event> }
-#[derive(Serialize, Deserialize, Default)]
-pub struct ViewModel { log: Vec<String> }
+/// the view shows the log and the last HTTP response as the API value itself (its Serialize impl is part of
+/// what must not depend on hash seeds)
+#[derive(Serialize, Default)]
+pub struct ViewModel { log: Vec<String>, last: Option<crux_http::Response<Vec<u8>>> }
 
 type CHttp = crux_http::command::Http<Effect, Event>;
 type CKv = crux_kv::command::KeyValue<Effect, Event>;
@@ -114,6 +120,7 @@ impl crux_core::App for App {
     fn update(&self, event: Event, model: &mut Model, caps: &Capabilities) -> Command<Effect, Event> {
         match event {
             Event::Go(ops) => {
+                let ops: Vec<AOp> = serde_json::from_str(&ops).expect("ops");
                 let mut cmds: Vec<Command<Effect, Event>> = vec![];
                 for op in ops {
                     match op {
@@ -149,6 +156,7 @@ impl crux_core::App for App {
                 Command::all(cmds)
             }
             Event::Http(r) => {
+                if let Ok(resp) = &r { model.last = Some(resp.clone()); }
                 model.log.push(match r {
                     Ok(resp) => {
                         let mut hs: Vec<String> = resp.iter().map(|(n, vs)| format!("{}={}", n, vs.iter().map(|v| v.as_str()).collect::<Vec<_>>().join("|"))).collect();
@@ -174,7 +182,7 @@ impl crux_core::App for App {
             Event::TimeCmd(s) => { model.log.push(s); Command::done() }
         }
     }
-    fn view(&self, m: &Model) -> ViewModel { ViewModel { log: m.log.clone() } }
+    fn view(&self, m: &Model) -> ViewModel { ViewModel { log: m.log.clone(), last: m.last.clone() } }
 }
 
 // ------------------------------------------------------------------ one replay
@@ -239,7 +247,7 @@ fn replay(hist: &[Step]) -> ReplayOut {
     };
     for st in hist {
         match st {
-            Step::Event { ops } => { let effs = core.process_event(Event::Go(ops.clone())); take(effs, &mut pending, &mut out); }
+            Step::Event { ops } => { let effs = core.process_event(Event::Go(serde_json::to_string(ops).unwrap())); take(effs, &mut pending, &mut out); }
             Step::Resolve { k, seed } => {
                 if pending.is_empty() { take(vec![], &mut pending, &mut out); continue; }
                 let mut e = pending.remove((*k % pending.len() as u64) as usize);
@@ -264,6 +272,47 @@ fn replay(hist: &[Step]) -> ReplayOut {
     }
     out.bytes.push(0xEF);
     out.bytes.extend(bincode::serialize(&core.view()).unwrap());
+    out
+}
+
+/// The same history through the real `Bridge` (bincode): the raw bytes it returns for every step,
+/// effect ids and timer ids as they are.  Only comparable between processes in the same state.
+fn replay_bridge(hist: &[Step]) -> Vec<u8> {
+    use crux_core::bridge::{Bridge, Request as BReq};
+    let bridge: Bridge<App> = Bridge::new(Core::new());
+    let mut out = vec![];
+    let mut pending: Vec<(u32, EffectFfi)> = vec![];
+    let mut take = |bytes: Vec<u8>, pending: &mut Vec<(u32, EffectFfi)>, out: &mut Vec<u8>| {
+        out.extend((bytes.len() as u32).to_le_bytes()); out.extend(&bytes);
+        let reqs: Vec<BReq<EffectFfi>> = bincode::deserialize(&bytes).expect("bridge output decodes");
+        for r in reqs {
+            let resolvable = !matches!(&r.effect, EffectFfi::Render(_)) && !matches!(&r.effect, EffectFfi::Time(TimeRequest::Clear { .. }));
+            if resolvable { pending.push((r.id.0, r.effect)); }
+        }
+    };
+    for st in hist {
+        match st {
+            Step::Event { ops } => { let b = bridge.process_event(&bincode::serialize(&Event::Go(serde_json::to_string(ops).unwrap())).unwrap()).expect("process_event"); take(b, &mut pending, &mut out); }
+            Step::Resolve { k, seed } => {
+                if pending.is_empty() { continue; }
+                let (id, eff) = pending.remove((*k % pending.len() as u64) as usize);
+                let resp = match &eff {
+                    EffectFfi::Http(_) => bincode::serialize(&http_result(*seed)).unwrap(),
+                    EffectFfi::KeyValue(op) => bincode::serialize(&kv_result(op, *seed)).unwrap(),
+                    EffectFfi::Time(t) => bincode::serialize(&match t {
+                        TimeRequest::Now => TimeResponse::Now { instant: crux_time::Instant::new(*seed % 2_000_000_000, (*seed % 1_000_000_000) as u32) },
+                        TimeRequest::NotifyAt { id, .. } => TimeResponse::InstantArrived { id: *id },
+                        TimeRequest::NotifyAfter { id, .. } => TimeResponse::DurationElapsed { id: *id },
+                        TimeRequest::Clear { id } => TimeResponse::Cleared { id: *id },
+                    }).unwrap(),
+                    EffectFfi::Render(_) => vec![],
+                };
+                let b = bridge.handle_response(id, &resp).expect("handle_response"); take(b, &mut pending, &mut out);
+            }
+            Step::View => { out.push(0xEE); out.extend(bridge.view().expect("view")); }
+        }
+    }
+    out.push(0xEF); out.extend(bridge.view().expect("view"));
     out
 }
 
@@ -517,8 +566,12 @@ fn child_lines(seed: u64, count: u64) -> Vec<String> {
     assert!(out.status.success(), "child failed: {}", String::from_utf8_lossy(&out.stderr));
     String::from_utf8(out.stdout).unwrap().lines().map(|s| s.to_string()).collect()
 }
-fn report(h: &[Step], runs: &[Vec<u8>], first: &ReplayOut, origin: &str) -> Value {
-    let agree = runs.iter().all(|b| *b == runs[0]);
+fn kid_part(kids: &[Vec<String>], k: usize, i: usize, part: usize) -> Vec<u8> {
+    kids[k].get(i).and_then(|l| l.split(' ').nth(part)).map(unhex).unwrap_or_default()
+}
+fn report(h: &[Step], runs: &[Vec<u8>], bridge: &[Vec<u8>], first: &ReplayOut, origin: &str) -> Value {
+    let bridge_agree = bridge.iter().all(|b| *b == bridge[0] && !b.is_empty());
+    let agree = runs.iter().all(|b| *b == runs[0]) && bridge_agree;
     let lens: Vec<usize> = runs.iter().map(|b| b.len()).collect();
     let first_diff: Vec<Option<usize>> = runs.iter().map(|b| b.iter().zip(runs[0].iter()).position(|(x, y)| x != y)).collect();
     // oracle answers (url crate, encoders) for every HTTP description of the history, in order of occurrence
@@ -528,19 +581,19 @@ fn report(h: &[Step], runs: &[Vec<u8>], first: &ReplayOut, origin: &str) -> Valu
         let urls = url_table(desc, &encs);
         oracles.push(json!({"enc": encs, "urls": urls}));
     } } } }
-    json!({"kind": "replay", "origin": origin, "hist": h, "oracles": oracles, "obs": first.typed, "agree": agree, "replays": runs.len(), "lens": lens, "first_diff": first_diff})
+    json!({"kind": "replay", "origin": origin, "hist": h, "oracles": oracles, "obs": first.typed, "agree": agree, "bridge_agree": bridge_agree, "bridge_len": bridge[0].len(), "replays": runs.len() + bridge.len(), "lens": lens, "first_diff": first_diff})
 }
 
 fn main() {
     let args: Vec<String> = std::env::args().collect();
     if args.len() >= 4 && args[1] == "--child" {
         let (seed, count) = (args[2].parse().unwrap(), args[3].parse().unwrap());
-        for h in histories(seed, count) { println!("{}", hex(&replay(&h).bytes)); }
+        for h in histories(seed, count) { println!("{} {}", hex(&replay(&h).bytes), hex(&replay_bridge(&h))); }
         return;
     }
     if args.len() >= 4 && args[1] == "--child-file" {
         // replay mode: the histories come from a file; print one line per history
-        for h in file_histories(&args[2..3]) { println!("{}", hex(&replay(&h).bytes)); }
+        for h in file_histories(&args[2..3]) { println!("{} {}", hex(&replay(&h).bytes), hex(&replay_bridge(&h))); }
         return;
     }
     if args.len() >= 3 && args[1] == "--replay" {
@@ -553,8 +606,9 @@ fn main() {
         for (i, h) in hs.iter().enumerate() {
             let first = replay(h);
             let mut runs = vec![first.bytes.clone(), replay(h).bytes, replay(h).bytes];
-            for k in &kids { runs.push(k.get(i).map(|l| unhex(l)).unwrap_or_default()); }
-            println!("{}", report(h, &runs, &first, "replay"));
+            for k in 0..kids.len() { runs.push(kid_part(&kids, k, i, 0)); }
+            let bridge: Vec<Vec<u8>> = (0..kids.len()).map(|k| kid_part(&kids, k, i, 1)).collect();
+            println!("{}", report(h, &runs, &bridge, &first, "replay"));
         }
         for v in file_eq_cases(&args[2..]) { println!("{v}"); }
         return;
@@ -567,8 +621,9 @@ fn main() {
     for (i, h) in hs.iter().enumerate() {
         let first = replay(h);
         let mut runs = vec![first.bytes.clone(), replay(h).bytes, replay(h).bytes];
-        for k in &kids { runs.push(k.get(i).map(|l| unhex(l)).unwrap_or_default()); }
-        println!("{}", report(h, &runs, &first, "generated"));
+        for k in 0..kids.len() { runs.push(kid_part(&kids, k, i, 0)); }
+        let bridge: Vec<Vec<u8>> = (0..kids.len()).map(|k| kid_part(&kids, k, i, 1)).collect();
+        println!("{}", report(h, &runs, &bridge, &first, "generated"));
     }
     let mut r = Rng::new(seed ^ 0xE9);
     for i in 0..eqn { println!("{}", if i % 2 == 0 { eq_resp_case(&mut r) } else { eq_val_case(&mut r) }); }
